@@ -194,6 +194,46 @@ class Builder:
         if not ok and not self.dead:
             self.emit(bytes([29, idx]), allow_reject=False)
 
+    def g_attack_mu(self):
+        """mu X . body where, by the documented positivity judgement, X is not known to be positive in the schematic body (a
+        near miss: the body is positive in X up to a metavariable / pending substitution), followed - blind, the documented
+        machine has rejected at the Mu - by an admissible instantiation of the body's metavariables and the theorem
+        N -> (N -> N) about the result.  A checker whose positivity judgement is too generous certifies a statement with an
+        ill-formed mu."""
+        if len(self.m.memory) >= 250: return
+        d = self.draw
+        ids = self.cfg.ids
+        k = d(st.sampled_from(ids)); j = d(st.sampled_from(ids)); i = d(st.sampled_from(ids)); f = R.Y(0)
+        pos = R.MV(i, (), (), (k,), ()); neg = R.MV(i, (), (), (), (k,)); fre = R.MV(i, (), (k,), (), ())
+        templates = [
+            lambda: R.ES(pos, j, R.S(k)),
+            lambda: R.ES(pos, j, R.A(f, R.S(k))),
+            lambda: R.ES(fre, j, R.S(k)),
+            lambda: R.ES(R.I(neg, f), j, R.NOT(R.S(k))),
+            lambda: R.SS(pos, j, R.NOT(R.S(k))),
+            lambda: R.SS(R.MV(i), j, R.S(k)),
+            lambda: R.I(pos, f),
+            lambda: R.I(R.I(neg, f), f) if d(st.booleans()) else neg,
+            lambda: R.A(pos, neg),
+            lambda: R.EX(j, R.ES(pos, j, R.S(k))),
+            lambda: gens.draw_subst(d, self.cfg, 2),
+            lambda: self.collision_pattern(),
+        ]
+        body = d(st.sampled_from(templates))()
+        if not R.well_formed(body) or R.positive(body, k) or not R.metavars(body): return
+        nodes = {}
+        for nd in R.metavar_nodes(body): nodes.setdefault(nd[1], []).append(nd)
+        pairs = []
+        for mid, nds in sorted(nodes.items()):
+            merged = ('m', mid, tuple(sorted({x for n in nds for x in n[2]})), tuple(sorted({x for n in nds for x in n[3]})),
+                      tuple(sorted({x for n in nds for x in n[4]})), tuple(sorted({x for n in nds for x in n[5]})), ())
+            cands = [R.I(R.E(j), f), R.I(R.S(k), f), R.S(k), R.E(j), R.I(R.I(R.E(j), f), f), R.A(R.E(j), R.S(k)), R.I(R.S(j), f)]
+            cands = [c for c in cands if gens.admissible_for(merged, c)]
+            pairs.append((mid, d(st.sampled_from(cands)) if cands and d(st.integers(0, 5)) else gens.draw_admissible_concrete(d, merged, self.cfg, 1)))
+        idx = len(self.m.memory)
+        frag = inst_stream(M.emit(body) + bytes([7, k]), pairs) + bytes([28, 29, idx, 12, 26, 2, 0, 1])
+        self.emit(frag, 'attack-Mu', allow_reject=True)
+
     def g_weaken(self):
         t = self.top()
         if not t or t[0] != 'T' or len(self.m.memory) >= 250: return
@@ -296,7 +336,7 @@ class Builder:
 
     GADGETS = ['g_push_pattern', 'g_axiom', 'g_refl', 'g_refl', 'g_weaken', 'g_generalize', 'g_generalize',
                'g_substitution', 'g_substitution', 'g_instantiate', 'g_instantiate', 'g_mp', 'g_mp_ready', 'g_mem', 'g_quantifier_inst',
-               'g_attack_generalize', 'g_attack_generalize', 'g_attack_instantiate']
+               'g_attack_generalize', 'g_attack_generalize', 'g_attack_instantiate', 'g_attack_mu']
 
     def step(self):
         getattr(self, self.draw(st.sampled_from(self.GADGETS)))()
